@@ -1,6 +1,7 @@
 /-
-Ideal token bucket — what `golang.org/x/time/rate`'s `Reserve()` followed by `Cancel()` whenever
-`Delay() > 0` implements (request_rate_limit.go: globalLimiter / checkIPLimit):
+Ideal token bucket — what `golang.org/x/time/rate`'s `Allow()` implements (request_rate_limit.go: globalLimiter /
+checkIPLimit since fix cd6f867; the pinned `Reserve()` + `Cancel()` whenever `Delay() > 0` is this bucket for callers
+that never overlap and over-admits when they do — see `lookThenTake` below and known_findings):
 
   NewLimiter(rate.Limit(perMinute/60.0), burst)      starts FULL (tokens = burst)
   advance(now): tokens = min(burst, tokens + elapsed·rate)   (elapsed = 0 if now is before `last`)
@@ -61,6 +62,35 @@ def run (rate burst : Int) (b : Bucket) (asks : List Int) : List Obs :=
 def SortedFrom : Int → List (Int × Bool) → Prop
   | _, [] => True
   | lo, (t, _) :: rest => lo ≤ t ∧ SortedFrom t rest
+
+/-! ### Why the decision and the deduction must be one step
+
+A limiter whose callers first look (`tokens ≥ 1?`) and later take, with other callers' steps in between: the schedule
+is a list of steps of requests identified by a number.  (`Props.C17`: an atomic schedule is `run`; a schedule in which
+two requests both look before either takes admits both with one token in the bucket.) -/
+
+inductive LStep where
+  | look (r : Nat)   -- request r reads the level and decides
+  | take (r : Nat)   -- request r deducts a token if it decided to go ahead
+deriving DecidableEq, Repr
+
+structure LState where
+  tokens : Int                    -- scaled, as above
+  decided : List (Nat × Bool)     -- what each request decided when it looked
+  admitted : List Nat
+deriving DecidableEq, Repr
+
+/-- all steps at one instant: no refill between them -/
+def lookThenTake (s : LState) : List LStep → LState
+  | [] => s
+  | .look r :: rest => lookThenTake { s with decided := (r, decide (unit ≤ s.tokens)) :: s.decided } rest
+  | .take r :: rest =>
+    match s.decided.find? (·.1 == r) with
+    | some (_, true) => lookThenTake { s with tokens := s.tokens - unit, admitted := r :: s.admitted } rest
+    | _ => lookThenTake s rest
+
+/-- every request looks and takes without anybody in between -/
+def atomicSchedule (rs : List Nat) : List LStep := rs.flatMap (fun r => [.look r, .take r])
 
 /-! ### Clean-up of idle limiters
 
